@@ -454,6 +454,15 @@ func (fc *FCtx) specCall(n *SNode, env *Env) Val {
 					evalArgs()
 					return fc.keyFnApply(key, args)
 				}
+				if sf, ok := fc.E.cs.Specs[fn.Name]; ok && sf.Pkg == p.Path() {
+					evalArgs()
+					fc.declareSpecFn(sf)
+					var ts []string
+					for _, a := range args {
+						ts = append(ts, a.T)
+					}
+					return Val{T: app("spec_"+sf.Name, ts...), S: fc.specRet(sf)}
+				}
 				oos("spec: %s.%s is not a declared key function", fn.Args[0].Name, fn.Name)
 			}
 		}
@@ -531,6 +540,39 @@ func (fc *FCtx) specCall(n *SNode, env *Env) Val {
 	case "enc":
 		evalArgs()
 		return Val{T: app(fc.encFn(args[0].S), args[0].T), S: fc.U.BzSort()}
+	case "str":
+		evalArgs()
+		bzs := fc.U.BzSort()
+		fc.U.Fun("conv_Bz_Str", []*Sort{bzs}, SStr)
+		fc.U.Fun("conv_Str_Bz", []*Sort{SStr}, bzs)
+		return Val{T: app("conv_Bz_Str", fc.toBz(args[0])), S: SStr}
+	case "bytes":
+		evalArgs()
+		bzs := fc.U.BzSort()
+		fc.U.Fun("conv_Bz_Str", []*Sort{bzs}, SStr)
+		fc.U.Fun("conv_Str_Bz", []*Sort{SStr}, bzs)
+		return Val{T: app("conv_Str_Bz", args[0].T), S: bzs}
+	case "itlen":
+		evalArgs()
+		fc.iterSort()
+		return Val{T: fmt.Sprintf("(it_len %s)", itID(args[0])), S: SInt}
+	case "itpos":
+		evalArgs()
+		return Val{T: itPos(args[0]), S: SInt}
+	case "itkey":
+		evalArgs()
+		return Val{T: fmt.Sprintf("(it_key %s %s)", itID(args[0]), args[1].T), S: fc.U.BzSort()}
+	case "itval":
+		evalArgs()
+		return Val{T: fmt.Sprintf("(it_val %s %s)", itID(args[0]), args[1].T), S: fc.U.BzSort()}
+	case "hasprefix":
+		evalArgs()
+		fc.iterSort()
+		return Val{T: fmt.Sprintf("(hasprefix %s %s)", fc.toBz(args[0]), fc.toBz(args[1])), S: SBool}
+	case "bzlt":
+		evalArgs()
+		fc.iterSort()
+		return Val{T: fmt.Sprintf("(bz_lt %s %s)", fc.toBz(args[0]), fc.toBz(args[1])), S: SBool}
 	case "zero":
 		tn := n.Args[1]
 		name := tn.Name
